@@ -372,13 +372,14 @@ def _gen_case(cfg, values):
 
         def gen():
             for k in range(cfg['steps']):
-                o = choose_from(['yield-clean', 'yield-dirty', 'raise', 'raise-base'], 'gen')
+                o = choose_from(['yield-clean', 'yield-dirty', 'yield-in-transaction', 'raise', 'raise-base'], 'gen')
                 note('gen', k, o)
                 if o == 'raise': raise Other('g')
                 if o == 'raise-base': raise Abort('g')
                 c.modified = (o == 'yield-dirty')
+                c.in_transaction = (o == 'yield-in-transaction')          # flushed but not committed: the connection (and the SQLite transaction lock) would stay held while suspended
                 yield k
-                c.modified = False
+                c.modified = False; c.in_transaction = False
             note('gen', 'end', 'return')
         w = core.DBSessionContextManager()(gen)
         out = []
@@ -401,7 +402,7 @@ def _gen_spec(cfg, i, path):
         return path.outcome == 'ret' and bool(ok(g, 'commit')) and bool(ok(g, 'release')) and 'rollback' not in names(g[:ok(g, 'commit')[0]])
     if last[2] in ('raise', 'raise-base'):
         return path.outcome == 'exc' and isinstance(path.value, (Other, Abort, Fault)) and 'commit' not in n and n.count('rollback') == 1
-    if last[2] == 'yield-dirty':
+    if last[2] in ('yield-dirty', 'yield-in-transaction'):
         # suspending with uncommitted changes is refused, and rolled back
         return path.outcome == 'exc' and isinstance(path.value, (core.TransactionError, Fault)) and 'commit' not in n and n.count('rollback') == 1
     return True
@@ -410,7 +411,7 @@ def _gen_spec(cfg, i, path):
 def _gen_never_suspends_dirty(cfg, i, path):
     g = path.ghost
     for n, x in enumerate(g):
-        if x[0] == 'gen' and x[2] == 'yield-dirty':
+        if x[0] == 'gen' and x[2] in ('yield-dirty', 'yield-in-transaction'):
             if any(y[0] in ('consumer', 'gen') for y in g[n + 1:]): return False
     return True
 
@@ -541,7 +542,7 @@ CONTRACTS = [
              level='bounded', bound='nesting depth 2', allowed_exc=(Fault, Other, Abort)),
     Contract('generator_wrapper', 'pony.orm.core:DBSessionContextManager._wrap_coroutine_or_generator_function', _gen_configs, _gen_case,
              [('commit_on_finish_rollback_on_error_or_dirty_suspend', _gen_spec), ('no_session_while_suspended', _gen_session_closed_while_suspended),
-              ('never_suspends_with_uncommitted_changes', _gen_never_suspends_dirty)],
+              ('never_suspends_with_uncommitted_changes_or_an_open_transaction', _gen_never_suspends_dirty)],
              level='bounded', bound='<= 2 resumptions', allowed_exc=(Fault, Other, Abort, core.TransactionError)),
     Contract('flask._exit_session', 'pony.flask:_exit_session', [dict(exc='none'), dict(exc='Other')], _flask_case,
              [('satisfies_precondition_of___exit__', _flask_precondition_of_exit)],
